@@ -16,7 +16,9 @@ DECIDES = ('(a) latched-transaction rule: in every non-idle state of ULPIRegiste
            '0b10, each write_value follows its composite value while a change is pending and a write is requested '
            'exactly while shadow != value; (d) cross-gating: register writes start only when the transmitter is not busy '
            'and transmissions only when the control translator is not busy; every non-idle window state returns to '
-           'idle or restarts (no dead end), an interrupted write (DIR) restarts from the command byte. ')
+           'idle or restarts (no dead end), an interrupted write (DIR) restarts from the command byte; (e) the control translator\'s '
+           'registered busy flag is 1 in the very cycle a register write is requested (exact evaluation), so that the transmitter '
+           'sees the bus taken when the register window starts driving it. ')
 NOT_DECIDED = 'eventual convergence under an arbitrary PHY NXT/DIR schedule (a liveness property over histories).'
 
 
